@@ -51,6 +51,11 @@
 (* generates all histories and models what the code does then: a released  *)
 (* but not yet resumed listener reads the value that is current when it    *)
 (* finally runs (a later one, a dead variable, or the cancel exception).   *)
+(*                                                                         *)
+(* Listeners subscribing on another thread than the collector: see the     *)
+(* companion module SignalConc.tla (atomic-operation grain on _chain).     *)
+(* Configurations: Signal_seq.cfg (Strict), Signal_free.cfg (all           *)
+(* histories); tools/checks/c15.py derives its runs from Signal_base.cfg.  *)
 (***************************************************************************)
 EXTENDS Integers, Sequences, FiniteSets, TLC
 
